@@ -581,7 +581,8 @@ theorem Kernel.escalated_nozombie {k : Kernel} (hk : k.Base) {pid : Nat} (hs : k
     popped, `waitpid` says ECHILD, the `reap` event carries the cached exit code -/
 theorem reapProcess_gone_mk (k : Kernel) (a : Arbiter) (objs : List PObj) (w : Watcher) (frames : List Frame)
     (sleepers : List Sleeper) (tops : List TopFut) (ready : List Ready) (dv : List (Nat × Val)) (nid : Nat) (log : List Obs)
-    (u pid : Nat) (o : PObj) (p : KProc) (rc : Int) (hu : w.uid = u) (hk : k.Base) (hf : k.find pid = some p) (hg : p.st = .gone)
+    (u pid : Nat) (o : PObj) (p : KProc) (rc : Int) (hu : w.uid = u) (hh : w.hooks = []) (hk : k.Base)
+    (hf : k.find pid = some p) (hg : p.st = .gone)
     (hp : pid ∈ w.pids) (ho : objs.find? (fun o => decide (o.pid = pid)) = some o) (hrc : o.rc = some rc) :
     reapProcess u pid none ⟨k, a, objs, [w], frames, sleepers, tops, ready, dv, nid, log, false⟩ =
       ((), ⟨k.bump 1, a, objs, [{ w with pids := w.pids.filter (· ≠ pid) }], frames, sleepers, tops, ready, dv, nid,
@@ -598,7 +599,8 @@ theorem reapProcess_gone_mk (k : Kernel) (a : Arbiter) (objs : List PObj) (w : W
     unfold reapWait
     simp [bind, hkw, pure]
   unfold reapProcess reapTail
-  simp [bind, getW, hu, hp, popPid, modW, modS, hrw, pure, getO, ho, hrc, notify_mk, objStop, isAlive, evlog]
+  simp [bind, getW, hu, hp, popPid, modW, modS, hrw, pure, getO, ho, hrc, notify_mk, objStop, isAlive, evlog,
+    callHook_mk, hh]
 
 
 /-- the `reap` events of `reap_processes` over workers that were killed -/
@@ -617,29 +619,29 @@ theorem reapLogs_name (a : Arbiter) (w w' : Watcher) (h : w'.name = w.name) (l :
 
 theorem reapLoop_gone (u : Nat) (a : Arbiter) (objs : List PObj) (frames : List Frame) (sleepers : List Sleeper)
     (tops : List TopFut) (ready : List Ready) (dv : List (Nat × Val)) (nid : Nat) (l : List Nat) :
-    ∀ (k : Kernel) (w : Watcher) (log : List Obs), w.uid = u → k.Base → l.Nodup →
+    ∀ (k : Kernel) (w : Watcher) (log : List Obs), w.uid = u → w.hooks = [] → k.Base → l.Nodup →
       (∀ pid ∈ l, pid ∈ w.pids ∧ k.GoneP pid ∧ ∃ o, objs.find? (fun o => decide (o.pid = pid)) = some o ∧ o.rc = some (-9)) →
       (forIn l PUnit.unit (reapBody u) : M PUnit) ⟨k, a, objs, [w], frames, sleepers, tops, ready, dv, nid, log, false⟩ =
         (PUnit.unit, ⟨k.bump l.length, a, objs, [{ w with pids := w.pids.filter (fun p => decide (p ∉ l)) }], frames,
           sleepers, tops, ready, dv, nid, reapLogs a w l log, false⟩) := by
   induction l with
   | nil =>
-    intro k w log _ _ _ _
+    intro k w log _ _ _ _ _
     simp [Kernel.bump, reapLogs, pure]
     have : List.filter (fun _ => true) w.pids = w.pids := List.filter_eq_self.mpr (fun _ _ => rfl)
     rw [this]
   | cons pid rest ih =>
-    intro k w log hu hk hnd hall
+    intro k w log hu hh hk hnd hall
     obtain ⟨hp, ⟨p, hf, hg⟩, o, ho, hrc⟩ := hall pid (by simp)
     have hnd' := List.nodup_cons.mp hnd
     rw [List.forIn_cons]
     simp only [bind]
     rw [reapBody_open u pid _ (by simp)]
-    rw [reapProcess_gone_mk k a objs w frames sleepers tops ready dv nid log u pid o p (-9) hu hk hf hg hp ho hrc]
+    rw [reapProcess_gone_mk k a objs w frames sleepers tops ready dv nid log u pid o p (-9) hu hh hk hf hg hp ho hrc]
     simp only
     have hts : toString (-9 : Int) = "-9" := by decide
     rw [hts]
-    have := ih (k.bump 1) { w with pids := w.pids.filter (· ≠ pid) } (evlog a log w "reap" (some pid) "-9") hu (hk.bump 1) hnd'.2 (by
+    have := ih (k.bump 1) { w with pids := w.pids.filter (· ≠ pid) } (evlog a log w "reap" (some pid) "-9") hu hh (hk.bump 1) hnd'.2 (by
       intro q hq
       obtain ⟨hq1, hq2, hq3⟩ := hall q (by simp [hq])
       refine ⟨?_, hq2, hq3⟩
@@ -682,7 +684,7 @@ theorem stopAfterKill_gone (rec : Rec) (u : Nat) (wt : Waiter) (k : Kernel) (a :
       rw [getW_mk _ _ _ _ _ _ _ _ _ _ _ u hw.uid]
       erw [if_neg hst]
       rfl
-    rw [hbody, reapLoop_gone u a objs frames sleepers tops ready dv nid w.pids k w log hw.uid hk hnd
+    rw [hbody, reapLoop_gone u a objs frames sleepers tops ready dv nid w.pids k w log hw.uid hw.hooks hk hnd
       (fun pid hp => ⟨hp, (hall pid hp).1, (hall pid hp).2⟩), filter_not_mem_self]
   rw [stopAfterKill_eq]
   simp only [bind, stopCore, hreap]
@@ -2086,27 +2088,27 @@ theorem reapLogsC_name (a : Arbiter) (w w' : Watcher) (c : Int) (h : w'.name = w
 
 theorem reapLoop_goneC (u : Nat) (c : Int) (a : Arbiter) (objs : List PObj) (frames : List Frame) (sleepers : List Sleeper)
     (tops : List TopFut) (ready : List Ready) (dv : List (Nat × Val)) (nid : Nat) (l : List Nat) :
-    ∀ (k : Kernel) (w : Watcher) (log : List Obs), w.uid = u → k.Base → l.Nodup →
+    ∀ (k : Kernel) (w : Watcher) (log : List Obs), w.uid = u → w.hooks = [] → k.Base → l.Nodup →
       (∀ pid ∈ l, pid ∈ w.pids ∧ k.GoneP pid ∧ ∃ o, objs.find? (fun o => decide (o.pid = pid)) = some o ∧ o.rc = some c) →
       (forIn l PUnit.unit (reapBody u) : M PUnit) ⟨k, a, objs, [w], frames, sleepers, tops, ready, dv, nid, log, false⟩ =
         (PUnit.unit, ⟨k.bump l.length, a, objs, [{ w with pids := w.pids.filter (fun p => decide (p ∉ l)) }], frames,
           sleepers, tops, ready, dv, nid, reapLogsC a w c l log, false⟩) := by
   induction l with
   | nil =>
-    intro k w log _ _ _ _
+    intro k w log _ _ _ _ _
     simp [Kernel.bump, reapLogsC, pure]
     have : List.filter (fun _ => true) w.pids = w.pids := List.filter_eq_self.mpr (fun _ _ => rfl)
     rw [this]
   | cons pid rest ih =>
-    intro k w log hu hk hnd hall
+    intro k w log hu hh hk hnd hall
     obtain ⟨hp, ⟨p, hf, hg⟩, o, ho, hrc⟩ := hall pid (by simp)
     have hnd' := List.nodup_cons.mp hnd
     rw [List.forIn_cons]
     simp only [bind]
     rw [reapBody_open u pid _ (by simp)]
-    rw [reapProcess_gone_mk k a objs w frames sleepers tops ready dv nid log u pid o p c hu hk hf hg hp ho hrc]
+    rw [reapProcess_gone_mk k a objs w frames sleepers tops ready dv nid log u pid o p c hu hh hk hf hg hp ho hrc]
     simp only
-    have := ih (k.bump 1) { w with pids := w.pids.filter (· ≠ pid) } (evlog a log w "reap" (some pid) (toString c)) hu (hk.bump 1) hnd'.2 (by
+    have := ih (k.bump 1) { w with pids := w.pids.filter (· ≠ pid) } (evlog a log w "reap" (some pid) (toString c)) hu hh (hk.bump 1) hnd'.2 (by
       intro q hq
       obtain ⟨hq1, hq2, hq3⟩ := hall q (by simp [hq])
       refine ⟨?_, hq2, hq3⟩
@@ -2141,7 +2143,7 @@ theorem stopAfterKill_goneC (rec : Rec) (u : Nat) (c : Int) (wt : Waiter) (k : K
       rw [getW_mk _ _ _ _ _ _ _ _ _ _ _ u hw.uid]
       erw [if_neg hst]
       rfl
-    rw [hbody, reapLoop_goneC u c a objs frames sleepers tops ready dv nid w.pids k w log hw.uid hk hnd
+    rw [hbody, reapLoop_goneC u c a objs frames sleepers tops ready dv nid w.pids k w log hw.uid hw.hooks hk hnd
       (fun pid hp => ⟨hp, (hall pid hp).1, (hall pid hp).2⟩), filter_not_mem_self]
   rw [stopAfterKill_eq]
   simp only [bind, stopCore, hreap]
